@@ -147,3 +147,14 @@ Theorem C19_write_keeps_wf : forall (A : Type) (x y : arr A) idx v, wf x -> set 
 Proof. exact set_wf. Qed.
 Print Assumptions C19_write_keeps_wf.
 
+
+(* View::to_array: the owned copy of an axis view is a well-formed array over the remaining axes, and indexing it is
+   indexing the parent with the fixed coordinate put back (so everything above applies to the copy as well) *)
+From Sfs Require Import ToArrayP.
+Theorem C19_view_to_array : forall (A : Type) (x : arr A) a i v,
+  wf x -> positive_shape (ashape x) -> get_axis x a i = Some v ->
+  wf (view_to_array v) /\ ashape (view_to_array v) = remove_axis a (ashape x) /\
+  forall idx', get (view_to_array v) idx' =
+               if inb (remove_axis a (ashape x)) idx' then get x (insert_axis a i idx') else None.
+Proof. exact to_array_spec. Qed.
+Print Assumptions C19_view_to_array.
